@@ -104,7 +104,7 @@ theorem isAcq_selL_iff {L : Nat} {e : Ev} : isAcq (selL L) e = true ↔ e = .acq
   | acq m l =>
     cases m with
     | W => simp [isAcq, selL]
-    | R => simp [isAcq]
+    | R => simp [isAcq, selL]
   | rel _ => simp [isAcq]
   | rd _ => simp [isAcq]
   | wr _ _ => simp [isAcq]
@@ -142,7 +142,8 @@ theorem rinv_step {σ : Nat → Bool} {w L : Nat} {old new : Part → Nat} {s s'
         have hnl : holds (s.thr i).held L = false := by simpa [okEv] using hok
         have hnw : (L, Mode.W) ∉ (s.thr i).held := fun hm => by
           have := holds_iff.mpr ⟨_, hm⟩; simp [this] at hnl
-        simp only [isAcq, selL, beq_self_eq_true, if_true, hnw, if_false] at hb
+        have hsel : isAcq (selL L) (.acq .W L) = true := isAcq_selL_iff.mpr rfl
+        simp only [hsel, if_true, hnw, if_false] at hb
         have : (L, Mode.W) ∈ updHeld (s.thr i).held (.acq .W L) := by simp [updHeld]
         simp only [this, if_true]
         omega
